@@ -15,6 +15,7 @@ import (
 	"flag"
 	"fmt"
 	"go/ast"
+	"go/printer"
 	"go/token"
 	"go/types"
 	"os"
@@ -855,6 +856,164 @@ func main() {
 	}
 	sort.Strings(aliases)
 
+	// ---- appends that can alias: `x = append(y, …)` where y is a field, a package-level variable or a parameter (a slice
+	// somebody else also holds), the result is stored somewhere OTHER than y itself, and y's capacity is not clipped
+	// (`y[:n:n]`, slices.Clip, slices.Clone, slices.Concat): with spare capacity in y every such result shares y's backing
+	// array with y and with each other (D34: bridgelog wrappedLogger.With; seeded C18-m6: AdaptedClientPool.New).
+	var appends []string
+	{
+		cfgAll := &packages.Config{Mode: packages.NeedName | packages.NeedFiles | packages.NeedSyntax | packages.NeedTypes |
+			packages.NeedTypesInfo | packages.NeedImports, Dir: repo,
+			Env: append(os.Environ(), "GOFLAGS=-mod=mod", "GOPROXY=off", "GOSUMDB=off", "GOTOOLCHAIN=local")}
+		all, err := packages.Load(cfgAll, "./...")
+		if err != nil {
+			fmt.Fprintln(os.Stderr, "lockset: load ./...:", err)
+			loadErrs++
+		}
+		sort.Slice(all, func(i, j int) bool { return all[i].PkgPath < all[j].PkgPath })
+		txt := func(fs *token.FileSet, e ast.Node) string {
+			var b strings.Builder
+			_ = printer.Fprint(&b, fs, e)
+			return strings.Join(strings.Fields(b.String()), " ")
+		}
+		for _, p := range all {
+			if strings.Contains(p.PkgPath, "/internal/bench") || strings.Contains(p.PkgPath, "/internal/bridgetest") ||
+				strings.Contains(p.PkgPath, "/examples/") || strings.Contains(p.PkgPath, "/verifx") || strings.Contains(p.PkgPath, "/internal/verifhook") {
+				continue
+			}
+			for _, e := range p.Errors {
+				fmt.Fprintln(os.Stderr, "lockset:", e)
+				loadErrs++
+			}
+			info := p.TypesInfo
+			for _, file := range p.Syntax {
+				fname := p.Fset.Position(file.Pos()).Filename
+				if strings.HasSuffix(fname, "_test.go") || strings.Contains(fname, "verif_export") || strings.HasSuffix(fname, ".pb.go") || strings.HasSuffix(fname, ".pb.gw.go") {
+					continue
+				}
+				for _, d := range file.Decls {
+					fd, ok := d.(*ast.FuncDecl)
+					if !ok || fd.Body == nil {
+						continue
+					}
+					fname := p.Types.Name() + "." + fd.Name.Name
+					if fd.Recv != nil && len(fd.Recv.List) == 1 {
+						fname = p.Types.Name() + "." + strings.TrimPrefix(txt(p.Fset, fd.Recv.List[0].Type), "*") + "." + fd.Name.Name
+					}
+					shared := func(e ast.Expr) bool { // does somebody else (possibly) hold this slice?
+						switch x := e.(type) {
+						case *ast.SelectorExpr:
+							if sel, ok := info.Selections[x]; ok && sel.Kind() == types.FieldVal {
+								return true
+							}
+							if v, ok := info.Uses[x.Sel].(*types.Var); ok && v.Pkg() != nil && v.Parent() == v.Pkg().Scope() {
+								return true
+							}
+							return false
+						case *ast.Ident:
+							v, ok := info.Uses[x].(*types.Var)
+							if !ok || v.Pkg() == nil {
+								return false
+							}
+							if v.Parent() == v.Pkg().Scope() {
+								return true // package-level variable
+							}
+							// parameters (incl. receivers) of the enclosing function or of a literal inside it
+							param := false
+							ast.Inspect(fd, func(n ast.Node) bool {
+								var ft *ast.FuncType
+								switch y := n.(type) {
+								case *ast.FuncDecl:
+									ft = y.Type
+								case *ast.FuncLit:
+									ft = y.Type
+								}
+								if ft != nil && ft.Params != nil {
+									for _, fl := range ft.Params.List {
+										for _, nm := range fl.Names {
+											if info.Defs[nm] == v {
+												param = true
+											}
+										}
+									}
+								}
+								return !param
+							})
+							return param
+						case *ast.IndexExpr, *ast.StarExpr:
+							return true
+						case *ast.ParenExpr:
+							return false
+						}
+						return false
+					}
+					var visit func(n ast.Node, lhs string)
+					check := func(c *ast.CallExpr, lhs string) {
+						id, ok := c.Fun.(*ast.Ident)
+						if !ok || id.Name != "append" || len(c.Args) == 0 {
+							return
+						}
+						if _, isBuiltin := info.Uses[id].(*types.Builtin); !isBuiltin {
+							return
+						}
+						a0 := c.Args[0]
+						if se, ok := a0.(*ast.SliceExpr); ok && se.Slice3 {
+							return
+						}
+						if !shared(a0) {
+							return
+						}
+						if lhs == txt(p.Fset, a0) {
+							return // self-append: x = append(x, …)
+						}
+						appends = append(appends, fmt.Sprintf("%s: %s = append(%s, …)", fname, lhs, txt(p.Fset, a0)))
+					}
+					visit = func(n ast.Node, _ string) {
+						ast.Inspect(n, func(nd ast.Node) bool {
+							switch x := nd.(type) {
+							case *ast.AssignStmt:
+								for i, r := range x.Rhs {
+									if c, ok := r.(*ast.CallExpr); ok {
+										l := "_"
+										if len(x.Lhs) == len(x.Rhs) {
+											l = txt(p.Fset, x.Lhs[i])
+										}
+										check(c, l)
+									}
+								}
+							case *ast.ValueSpec:
+								for i, r := range x.Values {
+									if c, ok := r.(*ast.CallExpr); ok && i < len(x.Names) {
+										check(c, x.Names[i].Name)
+									}
+								}
+							case *ast.ReturnStmt:
+								for _, r := range x.Results {
+									if c, ok := r.(*ast.CallExpr); ok {
+										check(c, "return")
+									}
+								}
+							case *ast.KeyValueExpr:
+								if c, ok := x.Value.(*ast.CallExpr); ok {
+									check(c, "field "+txt(p.Fset, x.Key))
+								}
+							case *ast.CallExpr:
+								for _, a := range x.Args {
+									if c, ok := a.(*ast.CallExpr); ok {
+										check(c, "argument of "+txt(p.Fset, x.Fun))
+									}
+								}
+							}
+							return true
+						})
+					}
+					visit(fd.Body, "")
+				}
+			}
+		}
+		sort.Strings(appends)
+	}
+
 	var sb strings.Builder
 	sb.WriteString("/- REGENERATED on every run by /verif/extract/lockset from the grpcbridge sources. Do not edit. -/\n")
 	sb.WriteString("namespace GB.Generated\n\n")
@@ -893,6 +1052,8 @@ func main() {
 	sb.WriteString("def immutableFields : List String := " + leanStrs(im) + "\n\n")
 	sb.WriteString("/-- package-level slices/maps handed out by reference (shared backing store between objects) -/\n")
 	sb.WriteString("def globalAliases : List String := " + leanStrs(aliases) + "\n\n")
+	sb.WriteString("/-- `x = append(y, …)` with y a field / package variable / parameter, x ≠ y and y's capacity not clipped: the result may\n    share y's backing array with y and with other results (all non-test packages of the repository) -/\n")
+	sb.WriteString("def aliasingAppends : List String := " + leanStrs(appends) + "\n\n")
 	sb.WriteString("end GB.Generated\n")
 	if *out != "" {
 		old, _ := os.ReadFile(*out)
